@@ -118,7 +118,7 @@ def gen_workflow(rng, profile):
         pstep = rng.choice(['work', 'work', 'nowork'])
         wf['steps'][s] = {'kind': 'plugin', 'pstep': pstep, 'fields': fields}
         oc[s] = o
-        ex = {'out': {'crash': 'bogus'}.get(o['beh'], o['beh']), 'delay_ms': rng.choice([0, 0, 1, 3, 8]), 'n': rng.randint(0, 50)}
+        ex = {'out': {'crash': 'success'}.get(o['beh'], o['beh']), 'crash': o['beh'] == 'crash', 'delay_ms': rng.choice([0, 0, 1, 3, 8]), 'n': rng.randint(0, 50)}
         script[s] = {'deploy': {'fail': o['deploy'] == 'fail', 'delay_ms': rng.choice([0, 0, 2])}, 'exec': ex}
     # outputs
     def out_tree(kind_pool, must=None):
